@@ -218,6 +218,7 @@ def run(ctx):
             ctx.ok("C11-G1", inst, d)
     for v in sub.violations:
         ctx.bad("C11-G1", v["key"].split("@", 1)[1], v["msg"], v["where"])
+    c03.rule_eof_token(ctx, f, "C11-G4")
     rule_slicing(ctx, f)
     rule_length(ctx, f)
     return ctx.finish(
